@@ -561,6 +561,9 @@ class Eval:
             else:
                 cs = [Fr(int(a / b)) for a in (l.lo, l.hi) for b in (r.lo, r.hi)]
                 lo, hi = min(cs), max(cs)
+        elif op == "Shl" and l.lo == l.hi and r.lo == r.hi and l.lo >= 0 and 0 <= r.lo < 64:
+            lo = hi = Fr(int(l.lo) << int(r.lo))          # a constant shifted by a constant
+            lbs, ubs = set(), set()
         else:
             raise ValueError("E2: integer operator %s" % op)
         ok = lo >= lo_t and hi <= hi_t
